@@ -11,6 +11,27 @@ STRENGTHENED = {
  "C01-1": "C01 operator x kind matrix with 2^53 / 2^63 boundary floats", "C01-2": "C01 repeated-call templates (memoized second call)", "C04-2": "C04 caught failing impure callee schedules",
  "C02-1": "C02 function-value printer family (delegated, see docs/C02_C03.md)", "C08-2": "C08 comment placement family", "C09-3": "C09 all wrap-around variants of array repetition pinned",
  "C14-3": "C14 value-limit boundary family above 64 KiB (delegated, see docs/C14.md)", "C17-1": "C17 multi-byte names (delegated)", "C17-2": "C17 fault trees: accepted target is a directory (delegated)",
+ # round 3 (seeds 4-6)
+ "C01-4": "C01 rebinding templates (pure dependent function called again after f := ...)", "C01-5": "C01 nested-container comparison templates (thresholds inside containers)",
+ "C02-4": "C02 left-spine chains of depth 3-4 under a parenthesised right operand (delegated)", "C03-6": "C03 MinInt64 token in the sign-adjacency families (delegated)",
+ "C04-5": "C04 deterministic product function kinds x every form of mutation/redefinition", "C06-6": "Containers.tla Overwrite action (merge onto an existing key)",
+ "C07-4": "C07 introspection family (info at every call depth / closure shape)", "C08-5": "C08 odd tokens in every binding position",
+ "C09-6": "C09 deep block / lambda-block / for-block generators pinned", "C10-4": "Session.tla macro good/fail kinds (MacroStateFresh)", "C10-5": "Session.tla argument-binding failures of top-level calls",
+ "C13-4": "C13 repeated-call sites for templates without unquote (delegated)", "C13-5": "C13 Redefine sessions (delegated)", "C13-6": "C13 failing inputs between definition and use (delegated)",
+ "C16-4": "C16 interning at scale (5k/17k/70k distinct tokens between equal tokens)", "C17-5": "C17 complete single-byte sweep of names (delegated)", "C18-5": "AutoSave.tla binding shapes, write faults at every binding position (delegated)",
+ "C19-4": "C19 fresh constant bound as a parameter (ported to HEAD)", "C19-6": "Constants.tla home=closure (escaped closures), deviation CheckWalksCallStack",
+ # round 4 (seeds 7-9)
+ "C01-7": "C01 holder templates; C06 values stored in a holder", "C04-7": "C04 printing callee in every syntactic position", "C04-8": "C04 failing impure extension (vgate) under catch", "C04-9": "C04 closures as arguments of storing/returning functions",
+ "C05-7": "interaction family L: recursion through counted loops (ported)", "C05-8": "interaction family M: register as right operand / index with mixed numeric keys", "C05-9": "caught after porting (family G/J programs)",
+ "C06-7": "C06 source-form variants (pack(..) initial values), hashed variant selection, crash guard", "C06-9": "C06 + with non-identifier left operands, parent container printed",
+ "C07-7": "C07 image pairs of every size", "C07-8": "C07 comment-only function bodies", "C07-9": "C07 quoted index/slice forms",
+ "C09-7": "C09 medium allocations kept alive, long enough to pass the bound", "C09-8": "C09 recursion from inside counted loops (WantMaxDepth)",
+ "C10-7": "Session.tla print-then-panic-in-function", "C10-8": "Session.tla depth-overflow-in-library-function", "C10-9": "Session.tla depth-overflow / panic in eval()",
+ "C12-7": "C12 session epochs in the order universe (delegated)", "C12-9": "C12 construction-history twins (delegated)",
+ "C19-7": "C19 del + rebinding to ANOTHER value, expected value tracked", "C19-8": "C19 shrunk-container constant kinds",
+ "C20-8": "C20 evaluator-fed index (only top-level names ever get in)", "C20-9": "C20 completion after indentation",
+ "C02-7": "C02 trees rebuilt by ast.Modify (delegated)", "C02-9": "C02 blocks beginning with a comment, compact (delegated, ported)", "C03-9": "C03 multi-line block comments at indent levels (delegated)",
+ "C13-7": "C13 argument pairs that print alike in compact form (delegated)", "C14-7": "C14 print -> modify existing element -> save again (delegated)", "C14-8": "C02 dot floats at statement boundaries (delegated)", "C14-9": "C02 source-level return/newline family (delegated)",
 }
 rows = []
 for d in sorted(os.listdir("/verif/seeded")):
